@@ -1,0 +1,23 @@
+//go:build verif
+
+package ocache
+
+import (
+	"sort"
+
+	"github.com/anyproto/any-sync/util/simhook"
+)
+
+// verifOrder replaces the map iteration order of collected entries by an order the simulator
+// decides (sorted by id, then permuted), so that a seed is an exactly repeatable execution.
+func verifOrder(point string, es []*entry) {
+	sort.Slice(es, func(i, j int) bool { return es[i].id < es[j].id })
+	p := simhook.Perm(point, len(es))
+	if len(p) != len(es) {
+		return
+	}
+	cp := append([]*entry(nil), es...)
+	for i, j := range p {
+		es[i] = cp[j]
+	}
+}
